@@ -88,13 +88,14 @@ class Ctx:
         known = L.load_known()
         unknown, seen_known = [], {}
         for v in self.viols:
-            k = L.match_known(v, known, self.prop)
+            # a monitor of another property that this check claims as well (EXTRA) may hit that property's listed finding
+            k = L.match_known(v, known, self.prop) or L.match_known(v, known, str(v.get("mon", ""))[:3])
             if k:
                 seen_known.setdefault(k["id"], (k, v))
             else:
                 unknown.append(v)
         for kid, (k, v) in sorted(seen_known.items()):
-            print("KNOWN-FINDING: property=%s %s [%s; e.g. scenario %s witness %s]" % (self.prop, k.get("summary", ""), kid, v.get("scen"), json.dumps(v.get("w"))))
+            print("KNOWN-FINDING: property=%s %s [%s; e.g. scenario %s witness %s]" % (k.get("property", self.prop), k.get("summary", ""), kid, v.get("scen"), json.dumps(v.get("w"))))
         reported = {}
         for v in unknown:
             key = (v.get("mon"), re.sub(r"\d+", "N", str(v.get("scen"))))
